@@ -366,7 +366,7 @@ package mqtt
 //@ func (*RetryClient).Retry$1
 //@   role task
 //@   mode int
-//@   props C01 C02 C03 C12 C18
+//@   props C01 C02 C03 C08 C12 C18
 //@   requires c != nil && cli != nil && ctx != nil
 //@   requires forall(0, len(c.retryQueue), func(i int) bool { return c.retryQueue[i] != nil })
 //@   assigns c.retryQueue; c.newRetryByError; c.subEstablished; (c.subEstablished)[*]; any Message.ID; any Message.Dup; any BaseClient.idLast; any Message.QoS
@@ -380,7 +380,7 @@ package mqtt
 //@        evArg[*BaseClient]("fntype:retryFn", 0, 1) == cli
 //@   loop 1 iter[C01,C03] grows: len(c.retryQueue) >= ssLen(qi) && forall(0, ssLen(qi), func(i int) bool { return sameFunc(c.retryQueue[i], ssAt(qi, i)) })
 //@   loop 1 iter[C01] continues_only_without_handle: !hasRetry(evRet[error]("fntype:retryFn", 0, 0))
-//@   loop 1 exit[C01,C02,C03,C12] requeue_exact: evCount("fntype:retryFn") == 1 && hasRetry(evRet[error]("fntype:retryFn", 0, 0)) ==>
+//@   loop 1 exit[C01,C02,C03,C08,C12] requeue_exact: evCount("fntype:retryFn") == 1 && hasRetry(evRet[error]("fntype:retryFn", 0, 0)) ==>
 //@        len(c.retryQueue) == ssLen(qi)+1+(ssLen(old)-(rangeindex+2)) &&
 //@        forall(0, ssLen(qi), func(i int) bool { return sameFunc(c.retryQueue[i], ssAt(qi, i)) }) &&
 //@        isBoundRetry(c.retryQueue[ssLen(qi)], evRet[error]("fntype:retryFn", 0, 0)) &&
